@@ -112,7 +112,7 @@ strict_grammar = ('RINGInput', {
     'C_Charge': All('ChargeChain', 'ConstraintNumber'),
     'ChargeChain': All('Charge', Optional(All('Boolean', 'ChargeChain'))),
     'Charge': All('ReactantName', Filler('.charge')),
-    'C_Cylic': All('ReactantName', Filler('is cyclic')),
+    'C_Cyclic': All('ReactantName', Filler('is cyclic')),
     'C_Characteristic': Either('C_Aromatic', 'C_Oxygenate', 'C_Heteroaromatic',
                                'C_Bridged', 'C_DeclaredCharacteristic',
                                'C_Smiles', 'C_Formula'),
@@ -120,7 +120,7 @@ strict_grammar = ('RINGInput', {
     'C_Oxygenate': All('ReactantName', Filler('is oxygenate')),
     'C_Heteroaromatic': All('ReactantName', Filler('is heteroaromatic')),
     'C_Bridged': All('ReactantName', Filler('is bridged')),
-    'C_Declaredcharacteristic': All('ReactantName', Filler('is'),
+    'C_DeclaredCharacteristic': All('ReactantName', Filler('is'),
                                     'CharacteristicName'),
     'CharacteristicName': String(),
     'C_Smiles': All('ReactantName', Filler('is'), 'Smiles'),
@@ -129,6 +129,7 @@ strict_grammar = ('RINGInput', {
                      'MolecularFormulaChain'),
     'MolecularFormulaChain': All('ElementSymbol', Optional(Number()),
                                  Optional('MolecularFormulaChain')),
+    'ElementSymbol': String(),
     'C_Fragment': All('ReactantName', Filler('contains'),
                       Optional(All('ConstraintNumber', Filler('of'))),
                       'FragmentName'),
